@@ -170,14 +170,23 @@ class Source:
             k += 1
         return limit
 
-    def region(self, name, first, last, within=None, ordinal=0, first_ordinal=0, until=None):
+    def region(self, name, first, last, within=None, ordinal=0, first_ordinal=0, until=None, after_loop=None):
         """Text of the statements of fn `name` from the statement whose line
         starts with `first` through the statement whose line starts with `last`
         (or through the end of the body when last == 'END'; or, with `until`,
         up to but excluding the first later line that starts with `until`)."""
         _, o, c = self.find_fn(name, within, ordinal)
         body_lo, body_hi = o + 1, c
-        a = self._find_line(first, body_lo, body_hi, first_ordinal)
+        if after_loop is not None:
+            # start at the first statement that follows the after_loop-th loop of the function
+            _, le = self.nth_loop(name, after_loop, within, ordinal)
+            a = le
+            while a < body_hi and self.masked[a] in " \t\n":
+                a += 1
+            if a >= body_hi:
+                raise AnchorLost(f"{self.path}: nothing follows loop #{after_loop} of `{name}`")
+        else:
+            a = self._find_line(first, body_lo, body_hi, first_ordinal)
         if until is not None:
             b_end = self._find_line(until, a, body_hi, 0)
             b_end = self.text.rfind("\n", 0, b_end) + 1
